@@ -12,6 +12,12 @@ R2  spec->code: TLC prints every reachable state with the exact answers of all o
     ToSym/UTo/LTo/At (P L U for LU), Det, LogDet, Cond bounds, SolveTo/SolveVecTo variants
     (dst empty, sized, dst aliasing b, transposed / interface-only b, both transpose flags) and
     InverseTo with the specification's rationals, exactly (math/big.Rat).
+    Reuse part (ReuseMachine.tla): one object of each of 12 types (QR, LQ, LU, Cholesky, BandCholesky,
+    PivotedCholesky, SVD, EigenSym, Eigen, GSVD, HOGSVD, Tridiag) is re-Factorized with every catalogue
+    instance (same shape, more/fewer rows and columns, other kind flags, failing inputs), Reset, cloned
+    into, with every query group extracted before and after; after Factorize(i) the complete observation
+    log must be bit-identical to that of a fresh object factorized with instance i, the matrix view
+    (Dims, At, T) must equal the specification's exact matrix, and empty objects must panic.
 R3  code->spec: seeded random histories (50 calls, dimension <= 5, wider alphabets than R2) on a
     live mat.Cholesky are logged (arguments, ok flag, rounded ToSym and Det) and accepted or
     rejected by TLC against CholTrace.tla, which reuses CholMachine's Target/Classify; the same
@@ -69,7 +75,12 @@ def run(ctx):
                                    subst=dict(MAXDIM=8, NVARIANTS=60 if thorough else 24, SEED=seed, EMIT="TRUE"),
                                    name="R2 gen planted least squares / spectra (theorems checked per case)")
 
-    ctx.parallel([r1, gen_chol, gen_lu(0), gen_lu(1), gen_planted], width=4)
+    def gen_reuse():
+        files["reuse"] = ctx.gen("matfactor/ReuseMachine.tla", "matfactor/ReuseMachine.cfg",
+                                 subst=dict(SEED=seed, MAXEX=3 if thorough else 2, EMIT="TRUE"),
+                                 name="R2 gen reuse histories of one object, 12 types (HistoryIndependent checked)")
+
+    ctx.parallel([r1, gen_chol, gen_lu(0), gen_lu(1), gen_planted, gen_reuse], width=4)
 
     # ---- R2: replay on the real objects ----------------------------------------------------
     nsh = 4
@@ -83,6 +94,8 @@ def run(ctx):
             thunks.append(lambda bn=bn, i=i, nm=nm: ctx.replay(
                 bins[bn], "matfactor-lu", files["lu%d" % i], [],
                 name="R2 replay LU histories %s [%s]" % (nm, bn)))
+        thunks.append(lambda bn=bn: ctx.replay(bins[bn], "matfactor-reuse", files["reuse"], [],
+                                               name="R2 replay reuse histories (re-Factorize / Reset / Clone of a used object) [%s]" % bn))
         thunks.append(lambda bn=bn: ctx.replay(bins[bn], "matfactor-planted", files["planted"], [],
                                                name="R2 replay planted instances [%s]" % bn))
     ctx.parallel(thunks, width=6)
@@ -118,6 +131,9 @@ def run(ctx):
         "the estimator is documented as an estimate",
         "R3 projection: ToSym and Det are rounded to integers at the logging boundary, with the recorded truth value "
         "'all within 2^-20 of an integer'",
+        "reuse part: the rule 'observables after Factorize(i) do not depend on the history' is the specification's; the "
+        "harness realises 'the observables of <<Factorize(i)>>' by a fresh object (whose correctness on such instances is "
+        "what the planted and machine parts check) and compares complete logs bit for bit",
         "a boundary update (some leading minor exactly 0) may answer either way; an LU update that is not representable "
         "with the kept pivots, or whose result is singular, must only not return a finite wrong answer silently",
     ]
